@@ -95,6 +95,20 @@ YmdVerdict(y, m, d) ==
   ELSE IF d > MonthLen(y, m) THEN EInvalidDate
   ELSE 0
 
+\* The error kinds that MATCH a rejected triple.  C01 names "the matching year-range / month / day / date-not-valid-for-month
+\* error"; a triple that is wrong in two ways (year 0 and month 13) matches two kinds and the property does not rank them, so any
+\* matching kind is allowed - for a triple wrong in ONE way this is exactly YmdVerdict.  (Whether 29 February "exists" in a year
+\* outside 1..9999 is not defined: both answers are allowed there, next to the year-range error.)
+YmdKinds(y, m, d) ==
+  LET yok == y >= MinYear /\ y <= MaxYear  mok == m >= 1 /\ m <= 12  dok == d >= 1 /\ d <= 31
+      len == IF ~mok THEN 31 ELSE IF yok THEN MonthLen(y, m) ELSE IF m = 2 THEN 28 ELSE MonthLen(2001, m)
+  IN (IF yok THEN {} ELSE {EDateOutOfRange}) \cup (IF mok THEN {} ELSE {EInvalidMonth}) \cup (IF dok THEN {} ELSE {EInvalidDay})
+     \cup (IF mok /\ dok /\ d > len THEN {EInvalidDate} ELSE {})
+\* as a tuple of kind codes (0 = not matching), for printing
+YmdKindsSeq(y, m, d) == LET K == YmdKinds(y, m, d) IN
+  <<IF EDateOutOfRange \in K THEN EDateOutOfRange ELSE 0, IF EInvalidMonth \in K THEN EInvalidMonth ELSE 0,
+    IF EInvalidDay \in K THEN EInvalidDay ELSE 0, IF EInvalidDate \in K THEN EInvalidDate ELSE 0>>
+
 (* ISO-8601 week-numbering year *)
 \* Monday-based index 0..6 (Monday = 0)
 MonIdx(n) == (Dow(n) + 5) % 7
